@@ -166,3 +166,35 @@ PROPS["C15"] = dict(
     not_covered=["point sets outside the lattice bound, dimensions 4-5, non-integer coordinates"],
 )
 PROPS["C12"]["bounded"] = ["bounded.hv_lattice"]
+
+
+# --- Trial-level contracts join C10 / C04 / C20 ---------------------------------------------------
+for _p in ("C10", "C04", "C20"):
+    PROPS[_p]["modules"] = PROPS[_p]["modules"] + ["contracts.trial"]
+    PROPS[_p]["assumptions"] = PROPS[_p]["assumptions"] + [
+        "sampler interface contract (assumed): sample_independent returns a value contained in the distribution",
+        "dynamic dispatch over distribution classes abstracted by uninterpreted functions (dist_contains, "
+        "internal_repr, dist_single, single_value, dist_compatible); the concrete Int/Float methods are proved "
+        "against their own contracts under C10/C11"]
+PROPS["C20"]["witnesses"] = {"Trial.__init__:post/any/ret2": "witnesses.f8", "Trial.__init__:post/any/ret3": "witnesses.f8"}
+
+
+def _rel_mixed(pid, contract, ob):
+    if contract.file.endswith("_in_memory.py"):
+        return _rel_mem(pid, contract, ob)
+    if ob["kind"] == "guarded-by":
+        return pid == "C03"
+    name, clause = ob["name"], str(ob.get("clause") or "")
+    if contract.qualname == "Trial.__init__":
+        return pid in ("C20", "C04")
+    if contract.qualname == "Trial._suggest":
+        if pid == "C20":
+            return ob["kind"] == "frame" or "dicts_same_except" in clause
+        if pid == "C04":
+            return "fixed_" in clause
+        return pid == "C10"
+    return True
+
+
+for _p in ("C10", "C04", "C20"):
+    PROPS[_p]["relevant"] = _rel_mixed
